@@ -1,6 +1,6 @@
 (* Proofs/CallGraphInst.v — the checker evaluated on the call graph generated from /repo on this run
    (Model/CallGraph.v), and the depth theorem instantiated on it. *)
-From Boreal Require Import Base.Prelude Base.ConstsParser Model.CallGraphCheck Model.CallGraph Proofs.CallGraphProofs.
+From Boreal Require Import Base.Prelude Base.ConstsParser Model.CallGraphCheck Model.CallGraph Proofs.CallGraphProofs Proofs.CallGraphFlow.
 
 (* computed: the call graph minus the guarded functions has no cycle, all guards have a known class *)
 Lemma graph_checked : guards_cut_all_cycles graph = true.
@@ -10,6 +10,38 @@ Lemma graph_depth_bounded :
   forall le ls lc li chain, is_path graph chain = true -> respects graph le ls lc li chain ->
     (length chain <= depth_bound graph le ls lc li)%nat.
 Proof. exact (depth_bounded graph graph_checked). Qed.
+
+(* the same bound from the operational reading of the guards (no per-class hypothesis on the chain) *)
+Lemma graph_depth_bounded_exec :
+  forall le ls lc li chain, is_path graph chain = true -> guards_pass graph (lim4 le ls lc li) [] chain ->
+    (length chain <= depth_bound graph le ls lc li)%nat.
+Proof. exact (depth_bounded_exec graph graph_checked). Qed.
+
+(* counter balance of every guarded function of this tree, on every path of its control-flow graph *)
+Lemma graph_counter_balanced :
+  forall p, In p (cg_progs graph) ->
+  forall c k e n v, reach p c k e -> nth_error (gp_nodes p) k = Some n -> gn_instr n = IRetOk v ->
+    elook e v = Some c.
+Proof. intros p Hin. exact (ok_exit_balanced p (progs_ok_balanced graph graph_checked p Hin)). Qed.
+
+Lemma graph_counter_never_below :
+  forall p, In p (cg_progs graph) ->
+  forall c k e n v d, reach p c k e -> nth_error (gp_nodes p) k = Some n -> elook (gn_cert n) v = Some d ->
+    exists m, elook e v = Some m /\ (c <= m)%nat.
+Proof. intros p Hin. exact (never_below_entry p (progs_ok_balanced graph graph_checked p Hin)). Qed.
+
+Lemma graph_call_counter :
+  forall p, In p (cg_progs graph) ->
+  forall c k e n cs srcs s d, reach p c k e -> nth_error (gp_nodes p) k = Some n -> gn_instr n = ICall cs srcs ->
+    In s srcs -> elook (gn_cert n) s = Some d ->
+    exists m, elook e s = Some m /\ (c + call_delta (gn_cert n) srcs <= m)%nat.
+Proof. intros p Hin. exact (call_counter p (progs_ok_balanced graph graph_checked p Hin)). Qed.
+
+Lemma graph_uncovered_in_copy :
+  forall p n cs srcs callee, In p (cg_progs graph) -> In n (gp_nodes p) -> gn_instr n = ICall cs srcs -> In callee cs ->
+    if Nat.leb 1 (call_delta (gn_cert n) srcs) then is_edge graph (gp_fn p) callee = true
+    else exists f', gp_copy p = Some f' /\ guarded graph f' = false /\ is_edge graph f' callee = true.
+Proof. exact (progs_ok_uncovered_in_copy graph graph_checked). Qed.
 
 (* the six guards the theorem relies on are there (ids are positions in CallGraph.cg_names) *)
 Lemma graph_guard_classes :
